@@ -68,3 +68,62 @@ func init() {
 		MinCovers: []string{"batched", "builder-error"},
 	})
 }
+
+func init() {
+	register(&CheckDef{
+		ID: "C05",
+		Jobs: func(tier string) []sym.Job {
+			var js []sym.Job
+			add := func(k, target, lenient, trunc, strlen int, cs ...int) {
+				pm := map[string]int{"k": k, "target": target, "lenient": lenient, "trunc": trunc, "strlen": strlen, "c0": 0, "c1": 0, "c2": 0, "c3": 0}
+				for i, c := range cs {
+					pm[[]string{"c0", "c1", "c2", "c3"}[i]] = c
+				}
+				js = append(js, sym.Job{Harness: "VH_C05_extract", Params: pm, MaxPath: 400000, AbstractCRC: target%2 == 1})
+			}
+			th := tier == "thorough"
+			targets := ints(4, 7)
+			if th {
+				targets = ints(4, 5, 6, 7)
+			}
+			single := ints(0, 1, 2, 3, 5, 7, 8, 9)
+			for _, t := range targets {
+				for _, c := range single {
+					add(1, t, 0, 0, 5, c)
+					add(1, t, 1, 1, 4, c)
+					add(1, t, 0, 1, 4, c)
+				}
+				pairs := [][]int{{0, 1}, {1, 2}, {2, 3}, {0, 0}, {1, 7}, {3, 5}}
+				if th {
+					pairs = nil
+					for i, a := range single {
+						for _, b := range single[i:] {
+							pairs = append(pairs, []int{a, b})
+						}
+					}
+				}
+				for _, p := range pairs {
+					add(2, t, 0, 0, 3, p...)
+					add(2, t, 1, 1, 3, p...)
+					if th {
+						add(2, t, 0, 1, 3, p...)
+						add(2, t, 1, 2, 6, p...)
+					}
+				}
+				if th {
+					for _, cs := range [][]int{{0, 1, 2}, {1, 1, 3}, {2, 9, 0}} {
+						add(3, t, 0, 0, 3, cs...)
+						add(3, t, 1, 1, 3, cs...)
+					}
+				}
+			}
+			return js
+		},
+		Bounds: map[string]string{
+			"quick":    "1..2 fields (thorough 3) on 2 servers x 2 distinct symbolic unit ids; field address = symbolic base (whole address space) + offset case-split over {0,1,3,124} (straddling the 125-register limit); the first field is on server 0/unit 0 w.l.o.g.; classes {Uint16, Int8, Bit, Uint32, Int32, Float64, Uint64, String(len 3..6)}; byte order, bit, high/low symbolic; four independent symbolic memory images of 136 registers; FC3-TCP and FC4-RTU; strict and lenient extraction; conforming device and device truncating replies by 1 register",
+			"thorough": "all four register targets; all class pairs; selected triples; truncation by 1 and 2 registers",
+		},
+		Outside:   []string{"more than 2 (thorough: 3) fields, more than 2 servers / 2 unit ids per server", "offsets outside the case-split set", "the decode of a single field is C04's subject: the expected value is obtained with the same accessors over the whole memory image"},
+		MinCovers: []string{"batched", "value-compared", "strict-short", "lenient-short"},
+	})
+}
